@@ -845,6 +845,12 @@ struct pred
   }
 };
 
+struct pred_by_value
+{
+  unsigned mask;
+  bool operator()(tracked x) const { return pred{mask}(x); }
+};
+
 // expected origin of the value the continuation makes out of element `o` of an argument passed with
 // category C: fwd = the library forwards elements of an rvalue argument as rvalues
 template <typename C>
